@@ -55,6 +55,28 @@ pub struct Echo {
     pub err_msg: String,
 }
 
+/// small messages: archived forms whose alignment is below 4 and whose length is not a multiple of 4
+#[repr(C)]
+#[derive(Serialize, Deserialize, Archive, PartialEq, Debug, Clone)]
+#[archive(check_bytes)]
+pub struct Tiny3 {
+    pub r: u8,
+    pub g: u8,
+    pub b: u8,
+}
+#[repr(C)]
+#[derive(Serialize, Deserialize, Archive, PartialEq, Debug, Clone)]
+#[archive(check_bytes)]
+pub struct Tiny5 {
+    pub a: [u8; 5],
+}
+#[repr(C)]
+#[derive(Serialize, Deserialize, Archive, PartialEq, Debug, Clone)]
+#[archive(check_bytes)]
+pub struct Tiny2 {
+    pub x: u16,
+}
+
 pub struct EchoSvc {
     /// every invocation: the value the handler observed
     pub seen: Rc<RefCell<Vec<Echo>>>,
@@ -66,6 +88,40 @@ unsafe impl Sync for EchoSvc {}
 impl RpcService for EchoSvc {
     fn register_handlers(r: &mut ServiceRegistry<Self>) {
         r.add_handler::<Echo>();
+        r.add_handler::<Tiny3>();
+        r.add_handler::<Tiny5>();
+        r.add_handler::<Tiny2>();
+    }
+}
+
+// the small-message handlers answer with every component incremented: the reply shows what the
+// handler observed, and it is a small message itself
+#[datacake_rpc::async_trait]
+impl Handler<Tiny3> for EchoSvc {
+    type Reply = Tiny3;
+    async fn on_message(&self, msg: Request<Tiny3>) -> Result<Tiny3, Status> {
+        let v: Tiny3 = msg.deserialize_view().map_err(Status::internal)?;
+        Ok(Tiny3 { r: v.r.wrapping_add(1), g: v.g.wrapping_add(1), b: v.b.wrapping_add(1) })
+    }
+}
+#[datacake_rpc::async_trait]
+impl Handler<Tiny5> for EchoSvc {
+    type Reply = Tiny5;
+    async fn on_message(&self, msg: Request<Tiny5>) -> Result<Tiny5, Status> {
+        let v: Tiny5 = msg.deserialize_view().map_err(Status::internal)?;
+        let mut a = v.a;
+        for x in a.iter_mut() {
+            *x = x.wrapping_add(1);
+        }
+        Ok(Tiny5 { a })
+    }
+}
+#[datacake_rpc::async_trait]
+impl Handler<Tiny2> for EchoSvc {
+    type Reply = Tiny2;
+    async fn on_message(&self, msg: Request<Tiny2>) -> Result<Tiny2, Status> {
+        let v: Tiny2 = msg.deserialize_view().map_err(Status::internal)?;
+        Ok(Tiny2 { x: v.x.wrapping_add(1) })
     }
 }
 
@@ -299,7 +355,7 @@ impl Check for C12 {
         "E2: server host (real datacake-rpc Server + echo service that logs every handler invocation) and client host (real RpcClient, plus a raw hyper HTTP/2 client for damaged requests and a same-URI impostor service for damaged replies) over simulated TCP; frame corruption enumerated at DataView::using, the decision point both directions share"
     }
     fn rule(&self) -> &'static str {
-        "Cases: seeded message values (fixed-size struct, strings, byte vectors empty..max, nested options and vectors, one value in eight with a flat list of 1500-6000 small structs; a quarter make the handler fail with a seeded error code and message). Per value: (1) through the real client and server: handler-observed value == sent, reply == handler's, error code and message identical, exactly one invocation; (2) at DataView::using for the request frame, the reply frame and a Status frame: EVERY single-bit flip (frames <= 1 KiB; 4096 seeded flips above), EVERY truncation length (<= 2 KiB; 1024 seeded above), extensions by 1..16 bytes, and EVERY length below size_of(archived root) as an all-zero and a random body with a CORRECT checksum; (3) a seeded sample of those damaged frames is sent through the network - requests by a raw HTTP/2 POST to the real URI, replies by an impostor service on the same URI - with latency and an optional link hold; (4) up to six valid request frames and six valid reply frames are delivered in 2-9 pieces at seeded cut points without a declared body length (a streaming peer) and must be observed unchanged. Oracle: damaged/short frames are refused (Err / InvalidPayload), no handler runs on them, nothing panics (debug assertions and overflow checks are on). Non-trivial = every case (each runs thousands of corruptions). Distinct = hash of the value seed and sizes."
+        "Cases: seeded message values (fixed-size struct, strings, byte vectors empty..max, nested options and vectors, one value in eight with a flat list of 1500-6000 small structs; a quarter make the handler fail with a seeded error code and message). Per value: (1) through the real client and server (plus three small messages of 3, 5 and 2 bytes, whose archived forms have alignment below 4 and lengths that are not multiples of 4, answered by a handler that increments every component): handler-observed value == sent, reply == handler's, error code and message identical, exactly one invocation; (2) at DataView::using for the request frame, the reply frame and a Status frame: EVERY single-bit flip (frames <= 1 KiB; 4096 seeded flips above), EVERY truncation length (<= 2 KiB; 1024 seeded above), extensions by 1..16 bytes, and EVERY length below size_of(archived root) as an all-zero and a random body with a CORRECT checksum; (3) a seeded sample of those damaged frames is sent through the network - requests by a raw HTTP/2 POST to the real URI, replies by an impostor service on the same URI - with latency and an optional link hold; (4) up to six valid request frames and six valid reply frames are delivered in 2-9 pieces at seeded cut points without a declared body length (a streaming peer) and must be observed unchanged. Oracle: damaged/short frames are refused (Err / InvalidPayload), no handler runs on them, nothing panics (debug assertions and overflow checks are on). Non-trivial = every case (each runs thousands of corruptions). Distinct = hash of the value seed and sizes."
     }
     fn assumptions(&self) -> Vec<String> {
         vec![
@@ -500,6 +556,32 @@ impl Check for C12 {
                 tokio::task::spawn_local(async move {
                     let _ = conn.await;
                 });
+                // (1b) small messages (alignment below 4, odd lengths) through the same client
+                for (i, v) in values.iter().enumerate() {
+                    let c = v.fixed.c;
+                    let t3 = Tiny3 { r: c[0], g: c[1], b: c[2] };
+                    let t5 = Tiny5 { a: [c[3], c[4], c[5], c[6], c[7]] };
+                    let t2 = Tiny2 { x: u16::from_le_bytes([c[8], c[9]]) };
+                    let r3 = client.send(&t3).await.ok().and_then(|r| r.deserialize_view().ok()).map(|r: Tiny3| r);
+                    let r5 = client.send(&t5).await.ok().and_then(|r| r.deserialize_view().ok()).map(|r: Tiny5| r);
+                    let r2 = client.send(&t2).await.ok().and_then(|r| r.deserialize_view().ok()).map(|r: Tiny2| r);
+                    let mut o = net_out.borrow_mut();
+                    o.probe("small_messages_exchanged");
+                    let w3 = Tiny3 { r: t3.r.wrapping_add(1), g: t3.g.wrapping_add(1), b: t3.b.wrapping_add(1) };
+                    if r3.as_ref() != Some(&w3) {
+                        o.violate("C12/small-message-not-delivered-intact", format!("value #{i}: sent {:?}, the handler answers observed+1, client got {:?} instead of {:?}", t3, r3, w3));
+                    }
+                    let mut a5 = t5.a;
+                    for x in a5.iter_mut() {
+                        *x = x.wrapping_add(1);
+                    }
+                    if r5.as_ref().map(|r| r.a) != Some(a5) {
+                        o.violate("C12/small-message-not-delivered-intact", format!("value #{i}: sent {:?}, client got {:?} instead of {:?}", t5, r5, a5));
+                    }
+                    if r2.as_ref().map(|r| r.x) != Some(t2.x.wrapping_add(1)) {
+                        o.violate("C12/small-message-not-delivered-intact", format!("value #{i}: sent {:?}, client got {:?} instead of {}", t2, r2, t2.x.wrapping_add(1)));
+                    }
+                }
                 // (3c) valid frames delivered in pieces, without a declared body length (a streaming
                 // peer): the handler must still observe exactly the value sent
                 let mut crng = rng_from(chunk_seed);
